@@ -51,6 +51,7 @@ var HostilePlain = []string{
 	" ", "a b", "a=b", "=a", "a=", "=", "\n", "a\nb", "\t", "é", "ß", "日本語", "😀", "\xff", "a\xffb", "'", "\"", "\\",
 	"true", "false", "0", "+5", "0x10", "1e3", ".5", "NaN", "a-b", "a--b", "/x", "٣", "a..b", "a,b",
 	"-=", "-=x", "-=-x", "-=a=b", ":8080",
+	" -x", " --x", "\t-1", " --", " -", "\t--x=1", // blanks in front of a dash: text, not options
 }
 
 // ScenGen - generation context handed to Inject hooks.
@@ -484,6 +485,14 @@ func (g *scenGen) genPos(afterTypedMulti bool) *Item {
 	if !afterTypedMulti {
 		if g.r.Chance(1, 5) {
 			t = g.r.Pick(HostilePlain)
+			if t == " --x" || t == " -x" {
+				// a blank in front of the spelling of a declared option is still text
+				if ks := g.node.SortedKeys(); len(ks) > 0 {
+					if k := ks[len(t)%len(ks)]; k != "-" {
+						t = t[:len(t)-1] + k
+					}
+				}
+			}
 		} else if g.cfg.EmptyPos && g.r.Chance(1, 12) {
 			t = ""
 		}
